@@ -593,8 +593,10 @@ func BatchMain(self, verifDir string, p *Prop, tier string) int {
 	exit := deathExit
 	var knownSeen []string
 	nviol := 0
-	budgetEach := 90
-	if len(sigs) > 4 {
+	// VERIF_SHRINK_SECS: per-signature minimisation budget (0 = report unminimised; used
+	// by regression sweeps over seeded changes, where only the verdict matters)
+	budgetEach := envInt("VERIF_SHRINK_SECS", 90)
+	if len(sigs) > 4 && budgetEach > 30 {
 		budgetEach = 30
 	}
 	for k, sig := range sigs {
@@ -610,7 +612,7 @@ func BatchMain(self, verifDir string, p *Prop, tier string) int {
 			Signature: sig, Violation: r.Viol, Decoded: r.Decoded, Sample: r.Sample, Env: EnvInfo(), OrigLen: len(r.Choices)}
 		b, _ := json.MarshalIndent(rf, "", " ")
 		os.WriteFile(path, b, 0o644)
-		if k < 8 {
+		if k < 8 && budgetEach > 0 {
 			sh := exec.Command(self, "shrink", path, strconv.Itoa(budgetEach))
 			sh.Env = childEnv()
 			tb := &tailBuf{}
